@@ -588,6 +588,11 @@ func (s *Module) AddMPTNodes(nodes [][]byte) error {
 		if r.Err != nil {
 			return fmt.Errorf("failed to decode MPT node: %w", r.Err)
 		}
+		// A node whose child is serialized in place of its hash has the same hash as the
+		// canonical one, but that child and its subtree would never be requested and restored.
+		if !bytes.HasPrefix(nBytes, n.Bytes()) {
+			return errors.New("failed to decode MPT node: non-canonical encoding")
+		}
 		err := s.restoreNode(n.Node)
 		if err != nil {
 			return err
